@@ -103,6 +103,8 @@ func checkC04(c *Ctx) {
 	}
 	micWrappers(c, "R4.wrappers", true)
 	flowC04(c)
+	c.Run.Advisory("R2.prefix-guard", "R2.downlink-mic")
+	c.Run.Advisory("R3.block-callee", "R3.encrypt")
 	statelessRoots(c, "R5.stateless", "PHYPayload.calculateUplinkJoinMIC", "PHYPayload.calculateDownlinkJoinMIC", "PHYPayload.SetUplinkJoinMIC", "PHYPayload.SetDownlinkJoinMIC", "PHYPayload.ValidateUplinkJoinMIC", "PHYPayload.ValidateDownlinkJoinMIC", "PHYPayload.EncryptJoinAcceptPayload", "PHYPayload.DecryptJoinAcceptPayload")
 	// ---- R3 encrypt
 	for _, v := range jaVariants() {
